@@ -56,7 +56,7 @@ def big_scenarios(rng, tier):
 def run(tier, seed):
     rng = random.Random(seed)
     mc = datacheck.design_check(tier)
-    nwalk, depth = (3000, 12) if tier == "quick" else (15000, 12)
+    nwalk, depth = (3000, 12) if tier == "quick" else (30000, 12)
     ws = datacheck.walks(nwalk, depth, seed, cfg="cfg/Nonblock_sim_buf.cfg", module="Nonblock_MC.tla")
     execs = []
     V, D = datagen.NB_VARS, datagen.NB_DIMS
